@@ -173,6 +173,21 @@ type rec struct {
 	Filter string            `json:"filter"`
 }
 
+func entryPointsToo(name string) bool {
+	if strings.HasPrefix(name, "fixed:") {
+		return true
+	}
+	h := 0
+	for _, c := range name {
+		h = h*31 + int(c)
+	}
+	return h&entryMask == 0
+}
+
+// entryMask: which generated / skeleton schemas also go through the other entry points (a deterministic
+// subset chosen by name: one in 64 in the quick tier, one in 16 in the thorough tier; the fixed sets: all)
+var entryMask = 63
+
 func check(name string, mods map[string]string, f filt, base []gen.Rec) (vs []engine.Violation, removed, total int) {
 	mk := func(key, detail string) {
 		vs = append(vs, engine.Violation{Key: key, Witness: name + " filter=" + f.Name, Detail: detail + "\n" + fmt.Sprint(mods), Harness: "filter", Replay: engine.JSON(rec{mods, name, f.Name})})
@@ -185,6 +200,13 @@ func check(name string, mods map[string]string, f filt, base []gen.Rec) (vs []en
 	case "error":
 		mk("filter-makes-compile-fail:"+f.Name, r.Err.Error())
 		return
+	}
+	// the same filter through every other public entry point: same filtered schema (the fixed
+	// sets: all; generated and skeleton schemas: one in 64, chosen by name)
+	if entryPointsToo(name) {
+		for _, d := range gen.EntryPointDisagreements(mods, gen.Options{Filter: f.F}, r) {
+			mk("filter-entry-points-disagree:"+strings.SplitN(d, ":", 2)[0]+":"+f.Name, d)
+		}
 	}
 	want := prune(base, f.Keep)
 	got := gen.Dump(r.MS, gen.DumpOpts{})
@@ -324,6 +346,9 @@ func runGenerated(c *engine.Ctx, doSet func(name string, mods map[string]string)
 }
 
 func run(c *engine.Ctx) {
+	if !c.Quick() {
+		entryMask = 15
+	}
 	fs := filters()
 	c.Note(fmt.Sprintf("%d filters", len(fs)))
 	doSet := func(name string, mods map[string]string) {
